@@ -555,7 +555,44 @@ func (e *executor) roundTrip(p mq.ControlPacket) string {
 	if buf.Len() != 0 {
 		return "rt FAIL leftover"
 	}
+	// the same bytes handed over the way a connection may hand them over: everything, together with io.EOF, in
+	// the last Read; and one byte at a time
+	for _, r := range []io.Reader{&allAtOnceEOF{data: first}, &oneByte{data: first}} {
+		q2, err := mq.ReadPacket(r)
+		if err != nil || q2 == nil {
+			return "rt FAIL err (other reader)"
+		}
+		if kindOf(q2) != kindOf(p) || viewOf(q2) != viewOf(p) {
+			return "rt FAIL view (other reader)"
+		}
+	}
 	return "rt ok"
+}
+
+// allAtOnceEOF returns as much as fits and, with the last bytes, io.EOF in the same call
+type allAtOnceEOF struct{ data []byte }
+
+func (r *allAtOnceEOF) Read(p []byte) (int, error) {
+	n := copy(p, r.data)
+	r.data = r.data[n:]
+	if len(r.data) == 0 {
+		return n, io.EOF
+	}
+	return n, nil
+}
+
+type oneByte struct{ data []byte }
+
+func (r *oneByte) Read(p []byte) (int, error) {
+	if len(r.data) == 0 {
+		return 0, io.EOF
+	}
+	if len(p) == 0 {
+		return 0, nil
+	}
+	p[0] = r.data[0]
+	r.data = r.data[1:]
+	return 1, nil
 }
 
 func (e *executor) exec(line string) (res string) {
